@@ -21,6 +21,7 @@ if args and args[0] == '--scratch':
     repo = scratch
     env['VERIF_REPO'] = scratch
     env['VERIF_OUT'] = scratch + '.out'
+    env['VERIF_WORK'] = scratch + '.work'
 only = args
 try:
     for d in sorted(os.listdir(os.path.join(V, 'seeded'))):
@@ -62,3 +63,4 @@ finally:
     if scratch:
         subprocess.call(['git', '-C', '/repo', 'worktree', 'remove', '--force', scratch])
         shutil.rmtree(scratch + '.out', ignore_errors=True)
+        shutil.rmtree(scratch + '.work', ignore_errors=True)
